@@ -1,9 +1,15 @@
 #!/bin/bash
-# Build everything from files on disk only (offline).
+# Build everything from files on disk only (offline): model + driver, property theorems, harness.
 set -e
 cd "$(dirname "$0")/.."
 export CARGO_NET_OFFLINE=true
 mkdir -p .build evidence replay
-(cd lean && lake build 2>&1 | tail -5)
-(cd harness && cargo build --release --offline 2>&1 | tail -3)
+cd lean
+# the driver first (fast), then all property modules; kernel tables are memory hungry: cap parallelism
+lake build t2n-driver 2>&1 | tail -2
+LEAN_NUM_THREADS=8 lake build T2N.Props.All 2>&1 | grep -v '^✔' | tail -15
+cd ../harness
+cargo build --release --offline 2>&1 | tail -2
+cd ..
+.build/harness/release/t2n-harness cc-dump > .build/cc.tsv
 echo "setup done"
